@@ -4,7 +4,13 @@
 (* an injected clock by harness/moment_h.py, against the property level of *)
 (* module Moment.  One trace per (specification, block of days); one line  *)
 (* per clock instant:                                                      *)
-(*   top level: "spec":{k,n,t}, "acc": accepted by dawgie.schedule/rule_10  *)
+(*   top level: "mode":"delay"|"shape", "spec":{k,n,t}, "shape":{boot,day,   *)
+(*   dom,dow,time : "none"|"ok"|"bad"}, "acc": the REAL rule_10 accepts it   *)
+(*   (mode "delay": and dawgie.schedule() built it).  Mode "shape" takes the *)
+(*   domain of the property from the real rule: every shape of MOMENT is     *)
+(*   offered to it; for an accepted one _delay must be computable (and land  *)
+(*   / not be further when it is a timed specification); ACCEPT = the rule   *)
+(*   and the model's WellFormed disagree about a shape (drift, not alarm).   *)
 (*   {"ev":"Delay","args":{"now":s,"y":..,"m":..,"d":..,"wd":..},          *)
 (*    "obs":{"ok":bool,"d":seconds,"exc":"ValueError"|""}}                 *)
 (* Failing clauses are printed, never abort.  DRIFT = the real function    *)
@@ -20,6 +26,9 @@ VARIABLES tid, l, bad, drift
 tvars == <<tid, l, bad, drift>>
 
 SpecOf(t) == [k |-> Traces[t].spec.k, n |-> Traces[t].spec.n, t |-> Traces[t].spec.t]
+ShapeOf(t) == [boot |-> Traces[t].shape.boot, day |-> Traces[t].shape.day, dom |-> Traces[t].shape.dom,
+               dow |-> Traces[t].shape.dow, time |-> Traces[t].shape.time]
+IsShape(t) == Traces[t].mode = "shape"
 Rec(t, i) == Traces[t].steps[i]
 ResOf(r)  == [ok |-> r.obs.ok, d |-> IF r.obs.ok THEN r.obs.d ELSE 0]
 
@@ -32,15 +41,19 @@ Check(t, i) ==
         s == SpecOf(t)
     IN IF r.ev # "Delay" \/ ~Traces[t].acc          \* acc: dawgie.schedule() built it and rule_10 accepts it
        THEN bad' = {} /\ drift' = FALSE
-       ELSE /\ bad' = FailedA(OccTab[s], r.args.now, ResOf(r))
-            /\ drift' = (ResOf(r) # DelayImpl(s, r.args.now))
+       ELSE /\ bad' = IF IsShape(t) THEN FailedShape(ShapeOf(t), r.args.now, ResOf(r))
+                                   ELSE FailedA(OccTab[s], r.args.now, ResOf(r))
+            /\ drift' = IF IsShape(t) /\ ~Timed(ShapeOf(t)) THEN FALSE
+                        ELSE ResOf(r) # DelayImpl(IF IsShape(t) THEN SpecOfShape(ShapeOf(t)) ELSE s, r.args.now)
             /\ (bad' # {} => PrintT(<<"CLAUSE", Traces[t].tid, i, r.ev, bad'>>))
             /\ (drift' => PrintT(<<"DRIFT", Traces[t].tid, i, r.ev>>))
             /\ (~CalOk(r) => PrintT(<<"CALBAD", Traces[t].tid, i, r.args.now>>))
 
 TraceInit == /\ tid \in 1 .. Len(Traces)
              /\ l = 1
-             /\ SpecOf(tid) \in Specs
+             /\ IF IsShape(tid) THEN ShapeOf(tid) \in Shapes ELSE SpecOf(tid) \in Specs
+             /\ (IsShape(tid) /\ Traces[tid].acc # WellFormed(ShapeOf(tid))) =>
+                    PrintT(<<"ACCEPT", Traces[tid].tid, Traces[tid].acc, WellFormed(ShapeOf(tid))>>)
              /\ bad = {} /\ drift = FALSE
 TraceNext == /\ l < Len(Traces[tid].steps)
              /\ l' = l + 1
